@@ -56,7 +56,7 @@ func c06DeathSig(caseID, tail string) string { return "reorg-crash " + topRepoFr
 func c06Cases(tier string, seed int64) []string {
 	n := 24
 	if tier == "thorough" {
-		n = 400
+		n = 2400
 	}
 	var l []string
 	for i := 0; i < n; i++ {
@@ -65,7 +65,7 @@ func c06Cases(tier string, seed int64) []string {
 	// scripted content inside the abandoned branch, fork just before the first reward-crediting update (height 600)
 	ns := 1
 	if tier == "thorough" {
-		ns = 12
+		ns = 48
 	}
 	for i := 0; i < ns; i++ {
 		for _, kind := range []string{"sentinel", "pillar", "spork", "token", "accelerator", "tick-gap", "tick-gap"} {
